@@ -101,6 +101,8 @@ type Exec struct {
 	autoHeld      int
 	curDeferFrame *frame
 	allocEvents   []allocEvent
+	lockDepth     int
+	lastEvents    []string // set by vrt.Events, consumed by the next vrt.Assert
 	cuts          int
 }
 
@@ -125,6 +127,7 @@ type Obligation struct {
 	TimeMs int64
 	Known  string
 	Choices map[string]int64
+	Events  []string `json:",omitempty"` // write-log entries behind an assert-writelog obligation
 }
 
 func (ex *Exec) newObj(site string) *Obj {
@@ -813,7 +816,11 @@ func (ex *Exec) noteWrite(o *Obj, pos token.Pos, what string) {
 		if ex.inSpec > 0 {
 			panic(specAbort{"store"})
 		}
-		ex.events = append(ex.events, Event{Kind: "store-" + tagNames[o.tag], Pos: ex.posStr(pos), Info: what + " into object allocated at " + o.site})
+		kind := "store-" + tagNames[o.tag]
+		if ex.lockDepth > 0 && o.tag != TagCallerBuf {
+			kind += "-locked"
+		}
+		ex.events = append(ex.events, Event{Kind: kind, Pos: ex.posStr(pos), Info: what + " into object allocated at " + o.site})
 		if o.tag == TagGlobal {
 			ex.w.globalsDirty = true
 		}
